@@ -12,6 +12,7 @@ type GenOpts struct {
 	Kinds        []TKind
 	WrapPct      int  // chance that argument expressions are wrapped in rt.A
 	ShadowPct    int  // chance that Params come from variables named like generated identifiers
+	Wide         int  // also generate this many wide programs (GenWide)
 	ParMatrix    bool // also generate the systematic signature matrix of Parallel programs (GenParMatrix)
 	BarePct      int  // chance that every argument is a bare identifier, poisoned once a user function runs
 	NoInvoke     bool // every task has at least one output; leftovers go to Results
@@ -401,6 +402,57 @@ func GenPar(r *Rand, name string, o GenOpts) *Program {
 		p.Bare, p.Wrap = true, false
 	}
 	g.finish()
+	return p
+}
+
+// GenWide builds a directive with n independent functions and nothing else:
+// a Parallel of Task/Tasks items (even i) or a Flow of input-less, output-less
+// Invoke tasks (odd i). Only every third program sets cff.Concurrency, so the
+// default limit max(GOMAXPROCS, 4) is what bounds most of them.
+func GenWide(i int, name string, o GenOpts) *Program {
+	r := NewRand(uint64(i), 0x71DE)
+	g := &flowGen{r: r, o: o, p: &Program{Name: name}, basic: map[TKind]bool{}}
+	p := g.p
+	p.Types = []TKind{KNamedInt}
+	n := 6 + (i*7)%20
+	if i%2 == 0 {
+		pr := &Par{}
+		p.Par = pr
+		for k := 0; k < n; {
+			if r.Chance(1, 2) {
+				f := g.newFn("ptask")
+				f.Ctx, f.Err = r.Chance(1, 2), r.Chance(1, 2)
+				pr.Items = append(pr.Items, PItem{Kind: "task", Fns: []Fn{f}})
+				k++
+				continue
+			}
+			it := PItem{Kind: "tasks"}
+			for q := 1 + r.Intn(5); q > 0 && k < n; q-- {
+				f := g.newFn("ptask")
+				f.Ctx, f.Err = r.Chance(1, 2), r.Chance(1, 2)
+				it.Fns = append(it.Fns, f)
+				k++
+			}
+			pr.Items = append(pr.Items, it)
+		}
+		pr.COE = i%4 == 0
+		pr.Concurrency = i%3 == 0
+		pr.OptOrder = r.Perm(3 + len(pr.Items))
+	} else {
+		f := &Flow{}
+		p.Flow = f
+		for k := 0; k < n; k++ {
+			fn := g.newFn("task")
+			fn.Ctx, fn.Err = r.Chance(1, 2), r.Chance(1, 2)
+			f.Tasks = append(f.Tasks, Task{Fn: fn, Invoke: true, OptOrder: r.Perm(4)})
+		}
+		f.Listing = r.Perm(n)
+		f.Concurrency = i%3 == 0
+		f.OptOrder = r.Perm(4 + n)
+	}
+	g.finish()
+	p.Features = append(p.Features, "wide")
+	sortStrings(p.Features)
 	return p
 }
 
